@@ -120,7 +120,7 @@ func c09Execute(ops []c09Op) (r c09Run) {
 				if g == nil {
 					g = pkg.NewVarDefs(pkg.Types.Scope())
 					groups[o.F] = g
-					g.NewAndInit(func(cb *gogen.CodeBuilder) int { cb.Val(0); return 1 }, token.NoPos, nil, fmt.Sprintf("zzg%d", o.F))
+					g.NewAndInit(func(cb *gogen.CodeBuilder) int { cb.Val(0); return 1 }, token.NoPos, nil, fmt.Sprintf("zzg%d_%d", o.F, nfn))
 				}
 				g.NewAndInit(func(cb *gogen.CodeBuilder) int { cb.Val(ref); return 1 }, token.NoPos, nil, fmt.Sprintf("zzv%d", nfn))
 			} else if o.Kept {
